@@ -441,7 +441,7 @@ type c16cell struct {
 // genTable lays cells out on an R x C grid by occupancy and returns the DOCX
 // rows (with continuation cells), the ODT rows (origins only) and the origins.
 func (g *c16gen) genTable() (dx [][]c16cell, od [][]c16cell, R, C int) {
-	R, C = g.rng.Range(1, 4), g.rng.Range(1, 4)
+	R, C = g.rng.Range(1, 4), g.rng.Range(1, 5)
 	type area struct{ w, left int }
 	occ := make([][]*area, R)
 	for i := range occ {
@@ -460,7 +460,7 @@ func (g *c16gen) genTable() (dx [][]c16cell, od [][]c16cell, R, C int) {
 				w++
 			}
 			h := 1
-			for r+h < R && g.rng.Chance(1, 4) {
+			for r+h < R && g.rng.Chance(1, 3) {
 				h++
 			}
 			var paras []string
